@@ -3,7 +3,7 @@
    makes every run independent of the order of the declaration lists.  The implementation is checked
    against the property directly (every generated program under several permutations), see DESIGN.md. *)
 From Coq Require Import List ZArith String Ascii Bool Arith Permutation.
-From Bloch Require Import Lang.Syntax Lang.Eval Lang.OrderProps Properties_C08.
+From Bloch Require Import Lang.Syntax Lang.Eval Lang.Typing Lang.OrderProps Properties_C08.
 Import ListNotations.
 
 Theorem C10_lookup_by_name_ignores_declaration_order :
@@ -29,6 +29,11 @@ Theorem C10_run_ignores_class_and_function_order :
   forall F (O : fops F) p q fuel, wf_names p -> same_decls p q -> static_free p -> run O fuel p = run O fuel q.
 Proof. exact @run_order_independent. Qed.
 Print Assumptions C10_run_ignores_class_and_function_order.
+
+Theorem C10_acceptance_ignores_function_order :
+  forall p q, wf_names p -> Permutation (p_fns p) (p_fns q) -> p_classes p = p_classes q -> Typing.check_program p = Typing.check_program q.
+Proof. exact check_program_order_independent. Qed.
+Print Assumptions C10_acceptance_ignores_function_order.
 
 (* non-vacuity: the C08 demo (derived class listed before its bases) meets wf_names, and reordering it changes nothing *)
 Example ex_demo_names : wf_names demo.
